@@ -19,6 +19,10 @@ C->S: one record per mapper (pix_sub_weights, mapping_matrix, unique_mappings, n
   seeded Delaunay instances (6..14 lattice vertices in general position, 20..60 sub-pixel positions inside and outside the
   hull; and hub meshes -- a centre ringed by 13..20 lattice points, so that neighbour lists of high degree are judged) for which
   the specification states what a valid answer is (any correct triangulation library is accepted).
+Near edges: a position may carry an exact dyadic offset (pos + fine/2^16): DelSpec probes both sides of every simplex edge at 2^-8,
+  2^-12, 2^-16 of the integer normal, edge midpoints and the surroundings of every vertex, dumps every accepted answer in general
+  position with the weights it wants for its probes, and the driver replays them into the real Delaunay mapper (S->C); the seeded
+  Delaunay / hub meshes carry 2..6 such positions each.  Inside/outside is the sign of integer determinants: no tolerance.
 History: every mapper carries a non-constant positive adapt image and, for a share of the instances, pixel_signals_from(signal_scale)
   is called once or twice before / between the four judged reads (action PixelSignals of the machine: nothing judged changes)."""
 import json
@@ -32,6 +36,7 @@ from harness import core
 OFF = -2
 TAUS = [2.0**-6, 2.0**-3, 0.25, 1.0, 0.05, 0.1, 1.0 / 3.0, 0.7, 4.0]
 DEL_TAUS = [2.0**-4, 0.25, 0.5, 1.0, 2.0, 0.05, 0.1, 1.0 / 3.0]
+FINE_E = 65536  # positions may carry an exact dyadic offset fine/FINE_E (a hair off an edge: 2^-8 .. 2^-16 of an integer normal)
 JIT = 0.02  # jitter (in ticks) of rectangular positions: < 1/(2*6) - margin, the cell of a point is constant on its open cell
 MESHES = [(3, 3), (3, 4), (4, 3), (5, 3)]
 BIG_MESHES = [(3, 3), (3, 5), (4, 6), (6, 4), (6, 6), (5, 3), (3, 6), (6, 3)]
@@ -42,6 +47,7 @@ MC_CONSTS = """CONSTANTS
   NeighbourShapes <- MCNeighbourShapes
   DelSizes <- MCDelSizes
   DelL = %d
+  DelE = 65536
 """
 MC_CFG = MC_CONSTS + """SPECIFICATION Spec
 INVARIANT InputsOffBoundaries
@@ -59,6 +65,7 @@ INVARIANT ValidityIsSound
 INVARIANT SomeAnswerIsValid
 INVARIANT ValidTilesExactly
 INVARIANT BarycentricWellDefined
+INVARIANT ProbesSeparateTheSides
 INVARIANT SimplexAdjacencySymmetric
 """
 TRACE_CFG = """CONSTANTS
@@ -67,6 +74,7 @@ TRACE_CFG = """CONSTANTS
   NeighbourShapes = {}
   DelSizes = {}
   DelL = 0
+  DelE = 1
 SPECIFICATION TraceSpec
 POSTCONDITION TraceAccepted
 """
@@ -139,6 +147,42 @@ def _hull_edges(V):
             sg = [np.sign(_orient(V[i], V[j], V[m])) for m in range(n) if m not in (i, j)]
             if all(s >= 0 for s in sg) or all(s <= 0 for s in sg):
                 out.append((i, j))
+    return out
+
+
+def _orient_q(a, b, q):
+    """E times twice the signed area of (a, b, q) for a query point q = (y, x, dy, dx, E) = (y + dy/E, x + dx/E)"""
+    return _orient(a, b, (q[0], q[1])) * q[4] + ((b[0] - a[0]) * q[3] - (b[1] - a[1]) * q[2])
+
+
+def _draw_probes(rng, V, T, hull, m):
+    """m positions a hair away from simplex edges (both sides, hull edges included) and from vertices: an edge point plus
+    k * 2^-e times the integer normal, e in {8, 12, 16}; never exactly on the line of a hull edge.  -> [(pos, fine)]"""
+    E = FINE_E
+    edges = sorted({tuple(sorted((t[i], t[j]))) for t in T for i, j in ((0, 1), (1, 2), (0, 2))})
+    hull_set = {tuple(sorted(h)) for h in hull}
+    out = []
+    for _ in range(20 * m):
+        if len(out) == m:
+            break
+        g = int(rng.choice([1, 16, 256])) * int(rng.integers(1, 4))  # k * 2^(16-e)
+        if rng.random() < 0.75:
+            i, j = edges[int(rng.integers(0, len(edges)))]
+            a, b = V[i], V[j]
+            quarter = int(rng.integers(1, 4))
+            side = int(rng.choice([-1, 1]))
+            if (i, j) not in hull_set and rng.random() < 0.1:
+                side = 0  # exactly on an interior edge: either simplex, same weights
+            fine = ((b[0] - a[0]) * (E // 4) * quarter - side * g * (b[1] - a[1]), (b[1] - a[1]) * (E // 4) * quarter + side * g * (b[0] - a[0]))
+        else:
+            a = V[int(rng.integers(0, len(V)))]
+            fine = (int(rng.integers(-1, 2)) * g, int(rng.integers(-1, 2)) * g)
+            if fine == (0, 0):
+                continue
+        q = (a[0], a[1], fine[0], fine[1], E)
+        if any(_orient_q(V[i], V[j], q) == 0 for i, j in hull):
+            continue
+        out.append(([int(a[0]), int(a[1])], [int(fine[0]), int(fine[1])]))
     return out
 
 
@@ -403,12 +447,53 @@ def gen_delaunay(rng, idx, fan=False):
         if inside == 0 or inside == len(pos):
             if rng.random() < 0.8:
                 continue
+        # pixels (sub size 1) whose position is a hair away from an edge or a vertex of the mesh
+        fine = [[0, 0] for _ in pos]
+        for ppos, pfine in _draw_probes(rng, V, T, hull, int(rng.integers(2, 7))):
+            at = int(rng.integers(0, len(sub) + 1))  # anywhere in the pixel order
+            start = sum(x * x for x in sub[:at])
+            sub.insert(at, 1)
+            pos.insert(start, ppos)
+            fine.insert(start, pfine)
         oy, ox = (0, 0) if rng.random() < 0.5 else (int(rng.integers(-8, 9)), int(rng.integers(-8, 9)))
         return {"kind": "delaunay", "id": idx, "sub": sub, "pos": pos, "V": [list(v) for v in V], "mask": _mask_for(len(sub), idx * 7919 + L),
                 "tau": float(DEL_TAUS[int(rng.integers(0, len(DEL_TAUS)))]), "origin": [float(oy), float(ox)], "jseed": 0,
                 "via": "mesh" if rng.random() < 0.5 else "direct", "order": [int(x) for x in rng.permutation(4)],
-                "scalar_sub": bool(len(set(sub)) == 1 and rng.random() < 0.5), "signals": _draw_signals(rng, 0.6)}
+                "scalar_sub": bool(len(set(sub)) == 1 and rng.random() < 0.5), "signals": _draw_signals(rng, 0.6),
+                "fine": fine, "E": FINE_E}
     raise core.MachineryError("could not draw a Delaunay instance")
+
+
+def inst_from_del_dump(d, idx):
+    """gamma for an accepted (vertex set, simplices) state of DelSpec: one pixel (sub size 1) per probe"""
+    key = zlib.crc32(json.dumps([d["V"], idx]).encode()) % (2**31)
+    want = d["want"]
+    n = len(want)
+    return {"kind": "delaunay", "id": idx, "sub": [1] * n, "pos": [[int(w["q"][0]), int(w["q"][1])] for w in want],
+            "fine": [[int(w["q"][2]), int(w["q"][3])] for w in want], "E": FINE_E, "V": [[int(v[0]), int(v[1])] for v in d["V"]],
+            "mask": _mask_for(n, key, frame=11), "tau": float(DEL_TAUS[key % len(DEL_TAUS)]), "origin": [[0.0, 0.0], [-3.0, 5.0]][key % 2], "jseed": 0,
+            "via": "mesh" if key % 2 else "direct", "order": [int(x) for x in np.random.default_rng(key % 97).permutation(4)],
+            "scalar_sub": bool(key % 4 < 2), "signals": _draw_signals(np.random.default_rng(key), 0.3)}
+
+
+def compare_del(rec, want):
+    """S->C: the weight of every vertex predicted by DelSpec for every probe against the recorded pix_sub_weights"""
+    for q, w in enumerate(want):
+        if q >= len(rec["sizes"]) or q >= len(rec["map"]):
+            return {"what": "pix_sub_weights", "probe": w["q"], "predicted": w, "real": "missing"}
+        size, row, wn, dq = rec["sizes"][q], rec["map"][q], rec["wn"][q], rec["dq"][q]
+        real = {"size": size, "mappings": row, "weights_times_dq": wn, "dq": dq}
+        if w["inside"]:
+            ok = size == 3
+            if ok:
+                for k in range(len(rec["V"])):
+                    got = sum(wn[j] for j in range(3) if row[j] == k)
+                    ok = ok and got * int(w["den"]) == int(w["w"][k]) * dq
+        else:
+            ok = size == 1 and row[0] in [int(x) for x in w["near"]]
+        if not ok:
+            return {"what": "pix_sub_weights of a point a hair off an edge / vertex", "probe": w["q"], "predicted": w, "real": real}
+    return None
 
 
 def _gen_one(args):
@@ -442,6 +527,8 @@ def build_mapper(inst):
     pos = np.array(inst["pos"], dtype=float)
     if inst["kind"] == "rect":
         pos = pos + np.random.default_rng(inst["jseed"]).uniform(-JIT, JIT, size=pos.shape)
+    elif inst.get("fine"):
+        pos = pos + np.array(inst["fine"], dtype=float) / float(inst["E"])  # exact in binary floating point
     grid = aa.Grid2DIrregular(off + tau * pos)
     # a non-constant, strictly positive adapt image (what pixel_signals_from reads); never part of the judged values
     npx = len(sub)
@@ -504,7 +591,9 @@ def record_of(inst):
     offl = []
     rect = inst["kind"] == "rect"
     P = inst["my"] * inst["mx"] if rect else len(inst["V"])
-    rec = {"kind": inst["kind"], "id": inst["id"], "sub": sub, "pos": inst["pos"], "P": P}
+    fine = inst.get("fine") or [[0, 0] for _ in inst["pos"]]
+    E = int(inst.get("E", 1))
+    rec = {"kind": inst["kind"], "id": inst["id"], "sub": sub, "pos": inst["pos"], "fine": fine, "E": E, "P": P}
     if rect:
         rec["my"], rec["mx"] = inst["my"], inst["mx"]
     else:
@@ -523,6 +612,8 @@ def record_of(inst):
         for q in range(nsub):
             if q < len(sizes) and sizes[q] == 3 and maps.shape[1] >= 3 and all(0 <= maps[q, k] < P for k in range(3)):
                 d = abs(_orient(V[maps[q, 0]], V[maps[q, 1]], V[maps[q, 2]]))
+                if q < len(fine) and (fine[q][0] or fine[q][1]):
+                    d *= E  # a position with an offset has weights over (2*area) * E
                 dq[q] = d if d > 0 else 1
     wn = _ints(wts * dq[: wts.shape[0], None] if wts.shape[0] == nsub else wts, 1, offl, "weights")
     rec["map"], rec["sizes"], rec["wn"], rec["dq"] = maps.tolist(), sizes.tolist(), wn.tolist(), dq.tolist()
@@ -535,7 +626,7 @@ def record_of(inst):
             l = l * int(dq[q]) // math.gcd(l, int(dq[q]))
         start += sub[i] ** 2
         d = sub[i] ** 2 * l
-        if d >= 2**26:
+        if d >= 2**30:
             offl.append("row-denominator-too-large")
             d = 1
         drow.append(int(d))
@@ -590,7 +681,9 @@ def _replay_group(args):
             out.append((None, None, f"{type(e).__name__}: {e}"))
             continue
         mism = None
-        if pred is not None:
+        if pred is not None and "want" in pred:
+            mism = compare_del(rec, pred["want"])
+        elif pred is not None:
             cells = [row[0] if row else OFF for row in rec["map"]]
             if cells != pred["cells"]:
                 mism = {"what": "pix_sub_weights.mappings", "predicted": pred["cells"], "real": cells}
@@ -606,7 +699,8 @@ def validate(ctx, insts, recs, tag):
     for k, r in enumerate(recs):
         r["id"] = k
     chunk = min(max(600, -(-len(recs) // 8)), 4000)  # few JVM starts, at most eight at a time
-    chunks = [recs[k : k + chunk] for k in range(0, len(recs), chunk)]
+    nchunks = max(1, -(-len(recs) // chunk))
+    chunks = [recs[k::nchunks] for k in range(nchunks)]  # round robin: the costly Delaunay records are spread over all chunks
     dummy = ctx.work / "no_insts.json"
     dummy.write_text("[]")
 
@@ -651,7 +745,11 @@ def run(ctx):
         "neighbour_graph_shapes": "3..6 x 3..6 (all)",
         "delaunay_validity_machine": {"vertices": del_sizes, "lattice": "(0..3)^2, no three collinear, translated to touch both axes", "simplices": "every set of at most 2n-4 vertex triples"},
         "trace_only_rectangular": {"n": n_big, "mask": "<=4x4 block in a 7x7 frame", "sub": "1..4 per pixel", "mesh_shapes": [list(s) for s in BIG_MESHES]},
-        "trace_only_delaunay": {"n": n_del, "vertices": "6..14 lattice points in general position in (0..8..12)^2", "sub_pixels": "20..60, inside and outside the hull"},
+        "trace_only_delaunay": {"n": n_del, "vertices": "6..14 lattice points in general position in (0..8..12)^2", "sub_pixels": "20..60, inside and outside the hull, "
+                                "plus 2..6 pixels whose position is an edge point (1/4, 1/2, 3/4 along a simplex or hull edge) +- k*2^-e*(integer normal), e in {8,12,16}, "
+                                "k in 1..3, or a vertex +- k*2^-e; 10% exactly on an interior edge"},
+        "delaunay_probe_replay": "every accepted answer of DelSpec in general position (quick: a seeded subset of 200) with all its probes: both sides of every "
+                                 "simplex edge at 2^-8, 2^-12, 2^-16 of the normal from the midpoint, interior/hull midpoints off the hull lines, 8 offsets of 2^-16 around every vertex",
         "trace_only_delaunay_hubs": {"n": n_fan, "vertices": "a centre ringed by 13..20 lattice points + 0..4 others in (0..40)^2, general position, "
                                                               "a vertex of degree >= 13 guaranteed"},
         "history": "adapt image 0.3 + k|sin| per pixel; pixel_signals_from(signal_scale in {0, 0.5, 1, 2, 3}) once or twice before/between the reads "
@@ -705,27 +803,43 @@ def run(ctx):
     big = _generate(ctx.seed, "big", 100001, n_big)
     dels = _generate(ctx.seed, "delaunay", 200001, n_del) + _generate(ctx.seed, "fan", 300001, n_fan)
     pairs += [(b, None) for b in big] + [(d, None) for d in dels]
-    groups = [pairs[k : k + 40] for k in range(0, len(pairs), 40)]
     insts, recs = [], []
-    n_mism = 0
-    for grp, part in zip(groups, core.pmap(_replay_group, groups)):
-        for (inst, pred), (rec, mism, err) in zip(grp, part):
-            if err is not None:
-                ctx.violation(sig_of(inst) + "/raised", f"{inst['kind']} mapper raised on a legal instance: {err}", {"inst": inst, "error": err}, cls="raised")
-                continue
-            if mism is not None:
-                n_mism += 1
-                ctx.violation(sig_of(inst), f"replay of a Mapper.tla state: {mism['what']} differs from the machine's prediction "
-                              f"({inst['my']}x{inst['mx']} mesh, sub={inst['sub']})", {"inst": inst, "record": rec, "mismatch": mism}, cls="replay:" + mism["what"])
-            insts.append(inst)
-            recs.append(rec)
-    ctx.replayed = len(dumps)
+    n_mism = [0]
+
+    def replay_pairs(prs):
+        groups = [prs[k : k + 40] for k in range(0, len(prs), 40)]
+        for grp, part in zip(groups, core.pmap(_replay_group, groups)):
+            for (inst, pred), (rec, mism, err) in zip(grp, part):
+                shape = f"{inst['my']}x{inst['mx']} mesh" if inst["kind"] == "rect" else f"{len(inst['V'])} vertices"
+                if err is not None:
+                    ctx.violation(sig_of(inst) + "/raised", f"{inst['kind']} mapper raised on a legal instance: {err}", {"inst": inst, "error": err}, cls="raised")
+                    continue
+                if mism is not None:
+                    n_mism[0] += 1
+                    ctx.violation(sig_of(inst) + ("/points-near-edges" if inst["kind"] == "delaunay" else ""),
+                                  f"replay of a Mapper.tla state: {mism['what']} differs from the machine's prediction ({shape}, sub={inst['sub'][:12]})",
+                                  {"inst": inst, "record": rec, "mismatch": mism}, cls="replay:" + mism["what"])
+                insts.append(inst)
+                recs.append(rec)
+
+    replay_pairs(pairs)
     th.join()
     if "err" in bg:
         raise bg["err"]
     rd = bg["res"]
-    if rd.distinct != 2 * rd.init_states or rd.init_states == 0:
-        raise core.MachineryError(f"DelSpec: {rd.distinct} states for {rd.init_states} initial states")
+    del_dumps = rd.by_kind("del")
+    n_accepted = len(del_dumps)
+    if rd.distinct != 2 * rd.init_states + n_accepted or rd.init_states == 0 or not del_dumps:
+        raise core.MachineryError(f"DelSpec: {rd.distinct} states for {rd.init_states} initial states and {n_accepted} probed answers")
+    # ---- S->C for DelSpec: every accepted answer in general position, with its probes a hair off the edges and vertices
+    del_dumps = sorted(del_dumps, key=lambda d: json.dumps(d["V"]))  # TLC's workers print in any order
+    if quick and len(del_dumps) > 200:  # quick tier: a seeded subset of the accepted answers (thorough: all of them)
+        pick = np.random.default_rng([ctx.seed, 66]).choice(len(del_dumps), size=200, replace=False)
+        del_dumps = [del_dumps[int(k)] for k in sorted(pick)]
+    del_pairs = [(inst_from_del_dump(d, 400001 + k), {"want": d["want"]}) for k, d in enumerate(del_dumps)]
+    replay_pairs(del_pairs)
+    n_probes = sum(len(d["want"]) for d in del_dumps)
+    ctx.replayed = len(dumps) + len(del_dumps)
     rej = validate(ctx, insts, recs, "C06")
     kinds = {}
     for r in recs:
@@ -739,8 +853,9 @@ def run(ctx):
     dl = [r for r in recs if r["kind"] == "delaunay"]
     if dl:
         ctx.sample({"delaunay_record": dl[0]})
-    ctx.note(f"Spec: {n_exh} exhaustive + {n_seeded} seeded rectangular instances + {len(nbr_shapes)} neighbour graphs, all replayed ({n_mism} mismatches); "
-             f"DelSpec: {rd.init_states} (vertex set, simplex set) pairs judged")
+    ctx.note(f"Spec: {n_exh} exhaustive + {n_seeded} seeded rectangular instances + {len(nbr_shapes)} neighbour graphs, all replayed; "
+             f"DelSpec: {rd.init_states} (vertex set, simplex set) pairs judged, {n_accepted} accepted answers in general position, {len(del_dumps)} of them replayed "
+             f"with {n_probes} probes at 2^-8..2^-16 from edges and vertices; replay mismatches: {n_mism[0]}")
     ctx.note(f"{len(recs)} records validated by Trace_Mapper ({kinds}); Delaunay sub-pixels inside the hull: {inside}, outside: {outside}; Delaunay meshes whose largest reported neighbour list has >= 13 entries: "
              f"{sum(1 for d in degs if d >= 13)} (largest {max(degs) if degs else 0}); rejected: {len(rej)}")
     ctx.note(f"mappers on which pixel_signals_from was evaluated before / between the judged reads: {sum(1 for i in insts if i.get('signals'))} "
@@ -751,6 +866,9 @@ def run(ctx):
         "cannot move a lattice point across a cell boundary (points are >= 1/6 tick away from interior boundaries); bounding boxes are non-degenerate",
         "rectangular positions are jittered by +-0.02 tick (the cell of a point is constant on its open cell); Delaunay positions are exact lattice points, "
         "never exactly on the hull boundary (where inside/outside is decided by floating-point tolerance), vertex sets in general position",
+        "a position with an offset is pos + fine/2^16 ticks, exact in binary floating point; the smallest offset (2^-16 of the normal) is >= 1e-8 in barycentric "
+        "units on every mesh used, six orders above qhull's default find_simplex tolerance (2e-14), so the unchanged tree classifies every probe exactly at all "
+        "three scales (no back-off was needed); positions exactly on the line of a hull edge are never generated, exactly on an interior edge either simplex is accepted",
         "alpha multiplies weights by the exact denominators (2*area of the reported triangle, sub_i^2 * lcm per row) and rejects values farther than 1e-6 from an integer",
         "TLC 1.8 / SANY / CommunityModules; scipy.spatial.Delaunay is treated as part of the implementation (its simplices are judged, not trusted)",
     ]
